@@ -22,6 +22,10 @@ pub struct Sub {
     /// use) instead of the paging hook
     #[serde(default)]
     pub by_out: bool,
+    /// with `by_out`: the program writes `latch | 0x20` (locking the latch) and then this value,
+    /// which the locked latch must ignore — the mapping and what is contended stay as locked
+    #[serde(default)]
+    pub ignored_after_lock: Option<u8>,
 }
 
 #[derive(Clone, Debug, Serialize, Deserialize)]
@@ -80,7 +84,9 @@ fn run_sub(cx: &mut Ctx, machine: Machine, s: &Sub, rec: &mut Rec) -> Result<(),
             cx.e.verif_set_paging(0);
             cx.m.bus.mem.latch = 0;
             cx.m.bus.mem.locked = false;
-            mach::poke_bytes(&mut cx.e, &mut cx.m.bus.mem, 0x8000, &[0x01, 0xFD, 0x7F, 0x3E, latch, 0xED, 0x79]);
+            let first = if s.ignored_after_lock.is_some() { latch | 0x20 } else { latch };
+            let second = s.ignored_after_lock.unwrap_or(first);
+            mach::poke_bytes(&mut cx.e, &mut cx.m.bus.mem, 0x8000, &[0x01, 0xFD, 0x7F, 0x3E, first, 0xED, 0x79, 0x3E, second, 0xED, 0x79]);
             mach::set_regs(&mut cx.e, &RegFile { pc: 0x8000, sp: 0xBF00, ..Default::default() });
             {
                 let cpu = cx.e.verif_cpu();
@@ -91,12 +97,19 @@ fn run_sub(cx: &mut Ctx, machine: Machine, s: &Sub, rec: &mut Rec) -> Result<(),
             mach::step_over(&mut cx.e, 3)?;
             mach::step_over(&mut cx.e, 2)?;
             mach::step_over(&mut cx.e, 2)?;
+            mach::step_over(&mut cx.e, 2)?;
+            mach::step_over(&mut cx.e, 2)?;
             rec.class("latch-set-by-real-OUT");
+            if s.ignored_after_lock.is_some() {
+                rec.class("latch-locked-then-ignored-write");
+            }
+            cx.m.bus.mem.latch = first;
+            cx.m.bus.mem.locked = first & 0x20 != 0;
         } else {
             cx.e.verif_set_paging(latch);
+            cx.m.bus.mem.latch = latch;
+            cx.m.bus.mem.locked = false;
         }
-        cx.m.bus.mem.latch = latch;
-        cx.m.bus.mem.locked = false;
     }
     // instruction bytes (ROM cannot be written: then whatever is there executes — still a valid case)
     let bytes = encode(table, s.op, s.operands);
@@ -281,12 +294,12 @@ fn sub(machine: Machine) -> impl Strategy<Value = Sub> {
         (addr(), addr(), addr(), addr(), addr(), addr(), addr()),
         (any::<u16>(), any::<u16>(), any::<u16>(), any::<u16>(), any::<u16>()),
         (prop_oneof![Just(0x40u8), Just(0x7F), Just(0x00), Just(0xC0), any::<u8>()], any::<u8>(), 0u8..3),
-        (start_t(machine), any::<bool>()),
+        (start_t(machine), any::<bool>(), prop_oneof![2 => Just(None), 1 => any::<u8>().prop_map(Some)]),
         any::<u8>(),
         // counters small so block repeats happen
         prop_oneof![3 => Just(None), 1 => (0u16..3).prop_map(Some)],
     )
-        .prop_map(move |((table, op, operands), (pc, sp, hl, bc, de, ix, iy), (af, af_, bc_, de_, hl_), (i, r, im), (start_t, by_out), latch, small_bc)| Sub {
+        .prop_map(move |((table, op, operands), (pc, sp, hl, bc, de, ix, iy), (af, af_, bc_, de_, hl_), (i, r, im), (start_t, by_out, ignored_after_lock), latch, small_bc)| Sub {
             table,
             op,
             operands,
@@ -312,6 +325,7 @@ fn sub(machine: Machine) -> impl Strategy<Value = Sub> {
             start_t,
             latch,
             by_out: by_out && machine == Machine::K128,
+            ignored_after_lock: if by_out && machine == Machine::K128 { ignored_after_lock } else { None },
         })
 }
 
